@@ -31,6 +31,7 @@ class SymCtx:
         self._reset()
         self.results = []  # (label, status, inputs|None)
         self.notes = {}
+        self.msgs = {}
 
     def _reset(self):
         self.inputs = {}  # name -> ('int', term, bits) | ('bytes', [terms]) | ('choice', idx)
@@ -70,6 +71,8 @@ class SymCtx:
 
     # ---- the deciding step
     def check(self, label, cond, msg=""):
+        if msg:
+            self.msgs[label] = str(msg)[:300]
         if isinstance(cond, SymInt):
             cond = (cond != 0)
         if isinstance(cond, SymBool):
@@ -145,6 +148,14 @@ class SymCtx:
     def known(self, dev):
         return dev in self.deviations
 
+    def oracle_struct(self, v):
+        """like oracle() for a decoded structure: the canary perturbs its first integer leaf"""
+        k = self._oracle_calls
+        self._oracle_calls += 1
+        if self.canary is not None and k == self.canary:
+            return _perturb(v)[0]
+        return v
+
     def select(self, table, idx):
         """table[idx] as one if-then-else term (finite function in the solver), no forking"""
         if not isinstance(idx, SymInt):
@@ -176,6 +187,35 @@ class SymCtx:
 
     def ticks(self):
         return self.ex.ticks
+
+
+def _perturb(v):
+    if isinstance(v, dict):
+        out = dict(v)
+        for k in out:
+            nv, done = _perturb(out[k])
+            if done:
+                out[k] = nv
+                return out, True
+        out["<canary>"] = 1
+        return out, True
+    if isinstance(v, list):
+        out = list(v)
+        for i in range(len(out)):
+            nv, done = _perturb(out[i])
+            if done:
+                out[i] = nv
+                return out, True
+        return out + [0], True
+    if isinstance(v, (SymInt, int)) and not isinstance(v, bool):
+        return v ^ 1, True
+    if isinstance(v, (SymBytes, bytes, bytearray)):
+        c = SymBytes.of(v)
+        if c:
+            c[0] = c[0] ^ 1
+            return SymBytes(c), True
+        return SymBytes([1]), True
+    return v, False
 
 
 # ------------------------------------------------------------------ obligations
@@ -230,7 +270,8 @@ def _run_ob(task):
                     d["solver"] = d.get("solver", 0) + 1
                 if st == "violated" and label not in seen_viol:
                     seen_viol.add(label)
-                    out["violations"].append({"label": label, "inputs": inp, "kind": "check"})
+                    out["violations"].append({"label": label, "inputs": inp, "kind": "check",
+                                              "msg": ctx.msgs.get(label, "")})
                 if st == "unknown":
                     out["unknown"].append(label)
             ctx.results = []
